@@ -16,6 +16,17 @@ type producer struct {
 	f, x int
 	n    int // length of every top-level slice value
 	slot int // next leaf number
+	// zero (PROTOCOL §2.3, len = 1000+n): every value is the zero value of its type -- nil pointers, nil interfaces,
+	// zero structs -- and slices have n zero elements
+	zero bool
+}
+
+// newProducer reads the behaviour's length: 1000+n asks for zero values.
+func newProducer(f, x, length int) producer {
+	if length >= 1000 {
+		return producer{f: f, x: x, n: length - 1000, zero: true}
+	}
+	return producer{f: f, x: x, n: length}
 }
 
 // fill sets dst (of a declared result type) and advances the slot counter.
@@ -44,6 +55,12 @@ func (p *producer) fill(dst reflect.Value, settable bool) {
 }
 
 func (p *producer) leaf(t reflect.Type, id, slot int) reflect.Value {
+	if p.zero {
+		if t.Kind() == reflect.Slice {
+			return reflect.MakeSlice(t, p.n, p.n) // n zero elements
+		}
+		return reflect.Zero(t)
+	}
 	if t.Kind() == reflect.Slice {
 		s := reflect.MakeSlice(t, p.n, p.n)
 		for i := 0; i < p.n; i++ {
